@@ -7,7 +7,7 @@
 //! `_score` from the returned score, ties by segment then document ordinal).
 //! Correspondence: ids in order and scores (rel 2e-5) against the Lean model
 //! (`SL.Sort.search` over keys built by `SL.Sort.buildKey`, scores from `SL.Bm25`).
-use super::c09::{analysed_segments, build_index, gen_blocky, gen_doc, has_hook, model_ranking, repeated_term, same_ranking, schema_json, split_query, Ranking, TEXT_FIELDS};
+use super::c09::{analysed_segments, build_index, gen_blocky, gen_doc, has_hook, model_ranking, model_score, tie_order_consistent, repeated_term, same_ranking, schema_json, split_query, Ranking, TEXT_FIELDS};
 use crate::idx;
 use crate::proto::Driver;
 use crate::rng::Rng;
@@ -279,10 +279,8 @@ impl Prop for C10 {
     let limit = if ties { 1 + rng.below(4) } else { 1 + rng.below(30) };
     let plan = resolve_plan(&sort);
     let fast = plan.len() == 1 && plan[0].0 == "_score" && plan[0].1;
-    // the default score sort prunes.  Queries with a score hook are run exhaustively on that path
-    // (pruning under a hook is C09's open finding); hook-free queries use any strategy
-    let hook_free = matches!(kind, "plain" | "single_term" | "match_all");
-    let execution = if fast && !hook_free { "bm25" } else if fast && ties { *rng.pick(&["bm25", "bm25", "wand", "bmw"]) } else { *rng.pick(&["bm25", "wand", "bmw"]) };
+    // every strategy on every path (the default score sort is the pruning path)
+    let execution = if fast && ties { *rng.pick(&["bm25", "bm25", "wand", "bmw"]) } else { *rng.pick(&["bm25", "wand", "bmw"]) };
     json!({"class": if ties { "ties" } else { "random" }, "kind": kind, "segments": segments, "deletes": deletes, "query": query, "sort": sort, "limit": limit, "execution": execution})
   }
 
@@ -390,13 +388,7 @@ impl Prop for C10 {
       s.count(&format!("fast_path.{execution}"));
     }
     if want != got {
-      let obs = json!({"page": got, "all_prefix": want, "execution": execution});
-      let explained = fast && execution == "bmw" && !hook && tk["ok"] == json!(true) && same_ranking(&model_ranking(&tk["bmw"]), &page, limit, 2e-5);
-      if explained {
-        s.fail("bmw.block-bound", "execution=bmw on the default score sort returns a page that is not the limit-prefix of all matches, exactly as the recorded block-bound defect of C09 predicts (TermState::block_upper_bound = maximum of the block the cursor is in)", case, obs);
-      } else {
-        s.fail("sort.prefix", "the hits of the request are not the limit-prefix of all matches in the same order", case, obs);
-      }
+      s.fail("sort.prefix", "the hits of the request are not the limit-prefix of all matches in the same order", case, json!({"page": got, "all_prefix": want, "execution": execution}));
     }
     // ---- finder (b): all matches are ordered by the statement's comparator
     for i in 1..rows.len() {
@@ -487,7 +479,7 @@ impl Prop for C10 {
       s.disagree("monitor.search_sorted", case, json!(null), json!({"eq_spec": model["eq_spec"], "shaped": model["shaped"]}));
     }
     let mpage: Vec<String> = model["hits"].as_array().map(|a| a.iter().map(|h| h["id"].as_str().unwrap_or("?").to_string()).collect()).unwrap_or_default();
-    let mh: Ranking = model["all"].as_array().map(|a| a.iter().map(|h| (h["id"].as_str().unwrap_or("?").to_string(), h["score"].as_f64().unwrap_or(f64::NAN))).collect()).unwrap_or_default();
+    let mh: Ranking = model["all"].as_array().map(|a| a.iter().map(|h| (h["id"].as_str().unwrap_or("?").to_string(), model_score(h))).collect()).unwrap_or_default();
     let uses_score = plan.iter().any(|(f, _)| f == "_score");
     let mut ok = mh.len() == all.len();
     if ok {
@@ -499,17 +491,17 @@ impl Prop for C10 {
         if mh[i].0 != all[i].0 {
           // a swap is only acceptable between hits whose scores are equal within tolerance and
           // only when the score takes part in the order
-          // … and not when the tie is exact on both sides: exact ties are resolved by segment
-          // and document order, deterministically
           let other = all.iter().find(|h| h.0 == mh[i].0).map(|h| h.1);
-          let mother = mh.iter().find(|h| h.0 == all[i].0).map(|h| h.1);
-          let exact_both = other == Some(all[i].1) && mother == Some(mh[i].1);
-          if exact_both || !(uses_score && other.map(|o| idx::close(o, all[i].1, 2e-5)).unwrap_or(false)) {
+          if !(uses_score && other.map(|o| idx::close(o, all[i].1, 2e-5)).unwrap_or(false)) {
             ok = false;
             break;
           }
         }
       }
+    }
+    // exact ties (bit-equal in the model and in the implementation) keep segment/document order
+    if ok && !tie_order_consistent(&mh, &all) {
+      ok = false;
     }
     if !ok {
       s.disagree("sorted.hits", case, json!(all.iter().map(|h| json!([h.0, h.1])).collect::<Vec<_>>()), json!(mh.iter().map(|h| json!([h.0, h.1])).collect::<Vec<_>>()));
@@ -521,13 +513,12 @@ impl Prop for C10 {
       s.count("term_scored_by_two_clauses");
     }
     // fast path: the page of the request against the mechanism model of the chosen strategy
-    if fast && !hook {
+    if fast {
       if tk["ok"] != json!(true) {
         s.disagree("model.error", case, json!(null), tk.clone());
       } else if tk["negative"] != json!(true) {
         let mr = model_ranking(&tk[execution]);
-        let knife = (execution == "wand" && tk["knife_wand"] == json!(true)) || (execution == "bmw" && tk["knife_bmw"] == json!(true));
-        if !same_ranking(&mr, &page, limit, 2e-5) && !knife {
+        if !same_ranking(&mr, &page, limit, 2e-5) {
           s.disagree(&format!("fastpath.page.{execution}"), case, json!(page.iter().map(|h| json!([h.0, h.1])).collect::<Vec<_>>()), json!(mr.iter().map(|h| json!([h.0, h.1])).collect::<Vec<_>>()));
         }
       }
